@@ -123,6 +123,17 @@ def i12(cx):
                     v = strip(a[3][names.index('seq')])
                     ok = const_int(v) == 0
             res.append(Finding(ID, 'I1', cx.label(fn), ok, 'seq starts at 0' if ok else 'RepeatTask::new does not start seq at 0', fn['span']))
+            okf = False
+            why = 'RepeatTask::new does not arm the first timer'
+            for x in aggs:
+                a = strip(x['rhs'])
+                names = a[5]
+                if 'fur' in names:
+                    v = strip(a[3][names.index('fur')])
+                    okf = v[0] == 'call' and v[1].endswith('new_timer') and bool(v[2]) and strip(v[2][0])[0] == 'arg'
+                    if not okf:
+                        why = 'the first timer is not new_timer(<period>) armed when the task is created (at subscription): fur = %s — the first tick would be due one period after the first poll, not after subscription' % render(v)[:60]
+            res.append(Finding(ID, 'I2', cx.label(fn), okf, 'first timer armed at creation with the period' if okf else why, fn['span']))
     return res
 
 
